@@ -77,6 +77,11 @@ M = [
  ("c05_correct_velocity_rotation_transposed", "pyins/error_model.py", "        velocity_n = mat_tp @ (pva[VEL_COLS] - x[self.DV])", "        velocity_n = mat_tp.T @ (pva[VEL_COLS] - x[self.DV])", ["C05"], "violation"),
  ("c05_correct_position_sign", "pyins/error_model.py", "        lla = transform.perturb_lla(pva[LLA_COLS], -x[self.DR])", "        lla = transform.perturb_lla(pva[LLA_COLS], x[self.DR])", ["C05"], "violation"),
  ("c05_inverse_via_solve", "pyins/error_model.py", "        result = np.linalg.inv(self._transform_to_output_3d(pva))", "        result = np.linalg.solve(self._transform_to_output_3d(pva), np.eye(9))", ["C05"], "quiet-or-drift"),
+ ("c17_taylor_cos_coefficient", "pyins/_numba_integrate.py", "        cos = 1 - norm2 / 2 + norm4 / 24", "        cos = 1 - norm2 / 2 + norm4 / 12", ["C17"], "violation"),
+ ("c17_rodrigues_sign", "pyins/_numba_integrate.py", "    mat[0, 1] = k2 * rv[0] * rv[1] - k1 * rv[2]", "    mat[0, 1] = k2 * rv[0] * rv[1] + k1 * rv[2]", ["C17"], "violation"),
+ ("c17_euler_intrinsic", "pyins/transform.py", "    return Rotation.from_euler('xyz', rph, degrees=True).as_matrix()", "    return Rotation.from_euler('XYZ', rph, degrees=True).as_matrix()", ["C17"], "violation"),
+ ("c17_small_angle_threshold", "pyins/_numba_integrate.py", "    if norm2 > 1e-6:", "    if norm2 > 1e-2:", ["C17"], "violation"),
+ ("c17_threshold_ge", "pyins/_numba_integrate.py", "    if norm2 > 1e-6:", "    if norm2 >= 1e-6:", ["C17"], "quiet-or-drift"),
 ]
 
 
